@@ -83,6 +83,15 @@ def rules(ck, P):
         after = sts[-1] if sts else None
         ck.check(after is not None and after is not lp and ir.contains(after, lambda y: (y.get("q") or "").endswith("Option::None::{Ctor#0}")), "R-FIRST", gtd["q"] + "|absent",
                  "no source has the tile -> Ok(None)", "the fall-through result is not Ok(None)", ir.loc(gtd))
+        # "no tile" is only ever the answer AFTER every source was asked: nothing returns before the loop (a pre-check of the coordinate
+        # - is_valid(), a coverage test - answers None for coordinates a source holds, e.g. on zoom level 31) and nothing leaves it
+        # except the first hit and a source's error
+        order = {id(y): i for i, y in enumerate(ir.walk_nodes(blk))}
+        early = [ir.loc(y) for y in ir.walk_nodes(blk) if y.get("k") == "ret" and order[id(y)] < order[id(lp)] and y.get("m", "") == "" and
+                 ir.contains(y, lambda z: (z.get("q") or "").endswith(("Option::None::{Ctor#0}", "Result::Ok::{Ctor#0}")))]
+        esc = [ir.loc(y) for y in ir.walk_nodes(lp["body"]) if y.get("k") in ("break", "continue")]
+        ck.check(not early and not esc, "R-FIRST", gtd["q"] + "|asks-before-none", "the lookup answers `no tile` only after every source was asked (no return before the loop, no break/continue in it)",
+                 "the overlay lookup can answer without asking its sources (early return at %s, loop exits at %s): a coordinate that a source holds is reported absent while the stream still delivers it" % (early, esc), ir.loc(gtd))
         # E-COMP on the lookup path
         rc = [n for n in ir.walk_nodes(lp["body"]) if n.get("k") == "call" and (n.get("q") or "").endswith("compression::recompress")]
         _recompress_ok(ck, gtd, rc, src["hid"], "lookup")
